@@ -44,6 +44,10 @@ def forged_file(rng, name: str, kind: str | None = None) -> dict:
                       "first_decode_time": rng.choice([0, 0, 0, 1234])}}
 
 
+def fname_of(entry: dict) -> str:
+    return entry["forge"]["name"] if "forge" in entry else str(entry.get("name", "va"))
+
+
 def burst_op(rng, names: list[str], fnames: list[str]) -> dict:
     """One management operation of a burst (the objects it names usually exist: the setup creates them)."""
     r = rng.random()
@@ -88,7 +92,7 @@ def conflict_ops(rng, names: list[str], fnames: list[str]) -> list[dict]:
     request's check (does the name exist? does the row exist?) is separated from its write by another's commit."""
     w = rng.randrange(3)
     k = rng.randrange(4)
-    kind = rng.randrange(14)
+    kind = rng.choice(list(range(14)) + [3, 3, 4])      # uploads change rows and files: more of them
     title = f"c{rng.randrange(100)}"
     period = [{"which": w, "pid": "p1", "start": "PT0S", "duration": "PT2S"}]
     if kind == 0:
@@ -148,7 +152,7 @@ def conflict_ops(rng, names: list[str], fnames: list[str]) -> list[dict]:
     return ops
 
 
-def generate_burst(seed: int, tier: str, index: int) -> dict:
+def generate_burst(seed: int, tier: str, index: int, bursts=(1, 1, 2), conflict_p: float = 0.45) -> dict:
     """Second stage: management operations served concurrently under the pre-emptive scheduler."""
     rng = base.rng_for(seed, "gen-burst")
     t0 = simclock.SimClock.parse(rng.choice(mc.T0_CHOICES))
@@ -163,9 +167,9 @@ def generate_burst(seed: int, tier: str, index: int) -> dict:
     if rng.random() < 0.4:
         script.append({"op": "add_mps", "name": "mone", "title": "multi", "periods": [
             {"which": 0, "pid": "p1", "start": "PT0S", "duration": "PT2S"}]})
-    for _ in range(rng.choice([1, 1, 2])):
+    for _ in range(rng.choice(list(bursts))):
         n = rng.choice([2, 2, 2, 3])
-        if rng.random() < 0.45:
+        if rng.random() < conflict_p:
             reqs = conflict_ops(rng, names, fnames)
         else:
             reqs = [burst_op(rng, names, fnames) for _ in range(n)]
@@ -196,10 +200,21 @@ def generate_crash(seed: int, tier: str, index: int) -> dict:
         script.append({"op": "upload", "which": rng.randrange(2), "file": forged_file(rng, rng.choice(fnames[:3]))})
         script.append({"op": "index", "which_file": -1})
     k = 2 + (index // 8) % 26
+    uploaded = [st["file"] for st in script if st["op"] == "upload"]
     for _ in range(rng.choice([1, 1, 2])):
         op = burst_op(rng, names, fnames)
         while op["op"] == "get":
             op = burst_op(rng, names, fnames)
+        r = rng.random()
+        if r < 0.3 and uploaded:
+            # an upload that replaces a stored file - of the same stream or of another one
+            prev = rng.choice(uploaded)
+            op = {"op": "upload", "which": rng.randrange(3), "file": forged_file(rng, fname_of(prev))}
+        elif r < 0.45:
+            op = rng.choice([{"op": "delete_media", "which_file": rng.randrange(4), "how": "ajax"},
+                             {"op": "delete_stream", "which": rng.randrange(3), "how": "ajax"},
+                             {"op": "edit_stream", "which": rng.randrange(3), "title": "renamed", "timing_ref": "first",
+                              "which_file": 0, "directory": rng.choice(["delta", "alpha"])}])
         script.append({"op": "crash", "request": op, "at": k})
         script.append({"op": "probe", "n": 2})
         k = 2 + rng.randrange(26)
